@@ -1,6 +1,7 @@
 import SamVerif.Lemmas.Doc
 import SamVerif.Lemmas.CommentQueue
 import SamVerif.Lemmas.Imports
+import SamVerif.Model.Attach
 /-!
 # C09 — Formatting is idempotent and keeps every comment
 
@@ -272,6 +273,45 @@ theorem prepend_conserves (st : Store) (hwf : WF st) (r : Nat) (extra old : List
 example : ∃ st' r', prepend emptyStore 0 [⟨.block, ['c']⟩] = some (st', r') ∧
     get st' r' = some [⟨.block, ['c']⟩] := ⟨_, _, rfl, rfl⟩
 
+/-- **Unwrapping parentheses conserves comments**: the inner expression ends up with the comments
+written after `(`, its own, and those written before `)`, in this order; other references and the
+store invariant are untouched. -/
+theorem keepParen_conserves (st : Store) (hwf : WF st) (r : Nat) (start stop old : List Comment)
+    (h : get st r = some old) :
+    ∃ st' r', keepParen st r start stop = some (st', r') ∧
+      get st' r' = some (start ++ old ++ stop) ∧ WF st' ∧
+      ∀ j, j < st.length → (old ≠ [] → j ≠ r) → get st' j = get st j := by
+  unfold get at h
+  by_cases hemp : (start.isEmpty && stop.isEmpty) = true
+  · have h1 : start = [] := by cases start <;> simp_all
+    have h2 : stop = [] := by cases stop <;> simp_all
+    subst h1 h2
+    exact ⟨st, r, by simp [keepParen, h], by simpa [get] using h, hwf, fun _ _ _ => rfl⟩
+  · cases old with
+    | nil =>
+      refine ⟨(createRef st (start ++ stop)).1, (createRef st (start ++ stop)).2,
+        by simp [keepParen, hemp, h], ?_, createRef_wf st _ hwf, ?_⟩
+      · simpa using createRef_get st (start ++ stop) hwf
+      · intro j hj _
+        unfold createRef get
+        split
+        · rfl
+        · simp only; rw [List.getElem?_append_left hj]
+    | cons e es =>
+      have hlt : r < st.length := (List.getElem?_eq_some_iff.mp h).1
+      refine ⟨st.set r (start ++ (e :: es) ++ stop), r, by simp [keepParen, hemp, h],
+        by simp [get, hlt], ?_, ?_⟩
+      · unfold WF at *
+        by_cases hr : r = 0
+        · subst hr; rw [h] at hwf; cases hwf
+        · rw [List.getElem?_set_ne hr]; exact hwf
+      · intro j _ hj
+        simp only [get]
+        rw [List.getElem?_set_ne (Ne.symm (hj (by simp)))]
+
+example : ∃ st' r', keepParen emptyStore 0 [⟨.block, ['a']⟩] [⟨.line, ['b']⟩] = some (st', r') ∧
+    get st' r' = some [⟨.block, ['a']⟩, ⟨.line, ['b']⟩] := ⟨_, _, rfl, rfl⟩
+
 /-
 Stretch (stated, not proved; listed under `pending` in the evidence):
 
@@ -321,12 +361,14 @@ theorem sortedGroups_comments (imps : List Import) :
     (flatComments (sortedGroups imps)).Perm (flatComments (organize imps)) := by
   unfold sortedGroups flatComments
   rw [List.flatMap_map]
-  exact (sortBy_perm _ (organize imps)).flatMap_right _
+  exact (flatMap_perm_pointwise _ _ _ groupComments_sortMembers).trans
+    ((sortBy_perm _ (organize imps)).flatMap_right _)
 
-/-- **No comment of an import line is lost or duplicated by merging and sorting**: the comments
-printed with the import lines are a permutation of the comments attached to the source lines. -/
+/-- **No comment of an import line or of an imported member is lost or duplicated by merging and
+sorting**: the comments printed in the import section are a permutation of the comments attached
+to the source import lines and their members. -/
 theorem imports_conserve_comments (imps : List Import) :
-    (flatComments (sortedGroups imps)).Perm (imps.flatMap (·.comments)) := by
+    (flatComments (sortedGroups imps)).Perm (imps.flatMap importComments) := by
   refine (sortedGroups_comments imps).trans ?_
   have := flatComments_foldl imps []
   simpa [organize, flatComments] using this
@@ -344,7 +386,81 @@ theorem imports_comments_move_with_line (imps : List Import) (g : Group) (hg : g
 example :
     let c1 : Comment := ⟨.line, ['1']⟩
     let c3 : Comment := ⟨.line, ['3']⟩
-    (sortedGroups [⟨['B'], [c1], [['y']]⟩, ⟨['A'], [], [['z']]⟩, ⟨['B'], [c3], [['x']]⟩]) =
-      [⟨['A'], [[]], [['z']]⟩, ⟨['B'], [[c1], [c3]], [['x'], ['y']]⟩] := by decide
+    (sortedGroups [⟨['B'], [c1], [⟨[], ['y']⟩]⟩, ⟨['A'], [], [⟨[], ['z']⟩]⟩, ⟨['B'], [c3], [⟨[c1], ['x']⟩]⟩]) =
+      [⟨['A'], [[]], [⟨[], ['z']⟩]⟩, ⟨['B'], [[c1], [c3]], [⟨[c1], ['x']⟩, ⟨[], ['y']⟩]⟩] := by decide
 
 end SamVerif.Imports
+
+namespace SamVerif.Attach
+open SamVerif.CommentQueue (Comment)
+
+/-! ## Attachment of the comments in front of an expression (`Model/Attach.lean`) -/
+
+theorem printCE_attachLeft (extra : List Comment) (e : CE) (h : NF e) :
+    printCE (attachLeft extra e) = extra.map .comment ++ printCE e := by
+  induction e with
+  | leaf cs a => simp [attachLeft, printCE]
+  | post cs e p ih => obtain ⟨rfl, he⟩ := h; simp [attachLeft, printCE, ih he]
+  | bin cs l ocs o r ihl _ => obtain ⟨rfl, hl, _⟩ := h; simp [attachLeft, printCE, ihl hl]
+
+theorem nf_attachLeft (extra : List Comment) (e : CE) (h : NF e) : NF (attachLeft extra e) := by
+  induction e with
+  | leaf cs a => trivial
+  | post cs e p ih => exact ⟨h.1, ih h.2⟩
+  | bin cs l ocs o r ihl _ => exact ⟨h.1, ihl h.2.1, h.2.2⟩
+
+theorem nf_normalize (e : CE) : NF (normalize e) := by
+  induction e with
+  | leaf cs a => trivial
+  | post cs e p ih => exact ⟨rfl, nf_attachLeft _ _ ih⟩
+  | bin cs l ocs o r ihl ihr => exact ⟨rfl, nf_attachLeft _ _ ihl, ihr⟩
+
+/-- **Re-reading never changes the text**: the normal form prints exactly like the original tree
+(comments and tokens, in order) — wherever comments were attached, none is lost or moved. -/
+theorem printCE_normalize (e : CE) : printCE (normalize e) = printCE e := by
+  induction e with
+  | leaf cs a => rfl
+  | post cs e p ih => simp [normalize, printCE, printCE_attachLeft _ _ (nf_normalize e), ih]
+  | bin cs l ocs o r ihl ihr =>
+    simp [normalize, printCE, printCE_attachLeft _ _ (nf_normalize l), ihl, ihr]
+
+theorem attachLeft_nil (e : CE) : attachLeft [] e = e := by
+  induction e with
+  | leaf cs a => rfl
+  | post cs e p ih => simp [attachLeft, ih]
+  | bin cs l ocs o r ihl _ => simp [attachLeft, ihl]
+
+/-- Normal-form trees are fixpoints of print-then-read. -/
+theorem normalize_of_nf (e : CE) (h : NF e) : normalize e = e := by
+  induction e with
+  | leaf cs a => rfl
+  | post cs e p ih =>
+    obtain ⟨rfl, he⟩ := h
+    simp only [normalize, ih he, attachLeft_nil]
+  | bin cs l ocs o r ihl ihr =>
+    obtain ⟨rfl, hl, hr⟩ := h
+    simp only [normalize, ihl hl, ihr hr, attachLeft_nil]
+
+/-- Both attachment policies print the additional comments in front of the expression, so the fix
+changes the tree, never the first-pass text. -/
+theorem attach_same_text (extra : List Comment) (e : CE) (h : NF e) :
+    printCE (attachOuter extra e) = printCE (attachLeft extra e) := by
+  rw [printCE_attachLeft extra e h]
+  cases e <;> simp [attachOuter, printCE]
+
+/-- **The fixed policy is stable under re-reading, the old one was not**: with `attachLeft` the
+parser's result already is the tree that reading the printed text gives back … -/
+theorem attachLeft_stable (extra : List Comment) (e : CE) (h : NF e) :
+    normalize (attachLeft extra e) = attachLeft extra e :=
+  normalize_of_nf _ (nf_attachLeft extra e h)
+
+/-- … whereas `attachOuter` produced a tree that the next pass replaced by a different one
+(finding C09-F5; the differing trees are laid out differently by the printer). -/
+theorem attachOuter_unstable_counterexample :
+    ¬ ∀ (extra : List Comment) (e : CE), NF e → normalize (attachOuter extra e) = attachOuter extra e := by
+  intro h
+  have := h [⟨.block, ['c']⟩] (.post [] (.leaf [] 0) 1) ⟨rfl, trivial⟩
+  revert this
+  decide
+
+end SamVerif.Attach
